@@ -1326,6 +1326,8 @@ func (kmc *KeystoreManagerForPoC) Lock() {
 }
 
 func (kmc *KeystoreManagerForPoC) IsLocked() bool {
+	kmc.mu.Lock()
+	defer kmc.mu.Unlock()
 	return !kmc.unlocked
 }
 
@@ -1371,6 +1373,9 @@ func (kmc *KeystoreManagerForPoC) NextAddresses(accountID string, internal bool,
 }
 
 func (kmc *KeystoreManagerForPoC) GenerateNewPublicKey() (*pocec.PublicKey, uint32, error) {
+	kmc.mu.Lock()
+	defer kmc.mu.Unlock()
+
 	managedAddresses := make([]*ManagedAddress, 0)
 	var accountID string
 	var pubkey *pocec.PublicKey
@@ -1630,7 +1635,9 @@ func (kmc *KeystoreManagerForPoC) ChangeRemark(accountID, newRemark string) erro
 		if err != nil {
 			return err
 		}
+		addrManager.mu.Lock()
 		addrManager.remark = newRemark
+		addrManager.mu.Unlock()
 		return nil
 	} else {
 		logging.CPrint(logging.ERROR, "account not exists",
